@@ -189,8 +189,16 @@ def base_D():
     return scn
 
 
-BASES = {'A': base_A, 'B': base_B, 'C': base_C, 'D': base_D}
-ONLY_KEYS = {'D': ('Assembly/*/duct_ftf', 'Core/assembly_pitch')}
+def base_E():
+    """base A with two time points (two user power files).  Only the power-file faults are enumerated on
+    this base; the faults `pf:tp2-*` hit the SECOND file."""
+    scn = base_A()
+    scn['power']['timepoints'] = 2
+    return scn
+
+
+BASES = {'A': base_A, 'B': base_B, 'C': base_C, 'D': base_D, 'E': base_E}
+ONLY_KEYS = {'D': ('Assembly/*/duct_ftf', 'Core/assembly_pitch'), 'E': ('Power/user_power@csv',)}
 _BASE_CACHE = {}
 
 
@@ -198,9 +206,12 @@ def base_text(name):
     """(input text, {file name: text}) of a base input, from the builder."""
     if name not in _BASE_CACHE:
         with S.Built(BASES[name]()) as b:
-            with open(os.path.join(b.dir, 'power_0.csv')) as f:
-                csv = f.read()
-            _BASE_CACHE[name] = (b.text, {'power_0.csv': csv})
+            fs = {}
+            for fn in sorted(os.listdir(b.dir)):
+                if fn.startswith('power_') and fn.endswith('.csv'):
+                    with open(os.path.join(b.dir, fn)) as f:
+                        fs[fn] = f.read()
+            _BASE_CACHE[name] = (b.text, fs)
     t, f = _BASE_CACHE[name]
     return t, dict(f)
 
@@ -688,6 +699,9 @@ PF_FAULTS = {
     'pf:asm-id-unknown': None, 'pf:asm-id-base0': None,
     'pf:zero-all': None, 'pf:huge-coeff': None, 'pf:tiny-coeff': None,
     'pf:missing-file': 'malformed-power',
+    'pf:tp2-missing-file': 'malformed-power', 'pf:tp2-neg-coeff': 'negative-power',
+    'pf:tp2-drop-pin': 'malformed-power', 'pf:tp2-upper-short': 'malformed-power',
+    'pf:tp2-text-cell': 'malformed-power',
     'pf:late-reorder': None,
     'pf:late-neg-coeff': 'negative-power', 'pf:late-neg-posslope': 'negative-power',
     'pf:late-drop-pin': 'malformed-power', 'pf:late-extra-pin': 'malformed-power',
@@ -699,6 +713,18 @@ PF_FAULTS = {
 
 def apply_pf(files, fault):
     name = 'power_0.csv'
+    if fault.startswith('pf:tp2-'):
+        # the same fault in the power file of the second time point
+        if 'power_1.csv' not in files:
+            return False
+        sub = {'power_0.csv': files['power_1.csv']}
+        ok = apply_pf(sub, 'pf:' + fault[7:])
+        if ok:
+            if 'power_0.csv' in sub:
+                files['power_1.csv'] = sub['power_0.csv']
+            else:
+                del files['power_1.csv']
+        return ok
     rows = [r.split(',') for r in files[name].strip().split('\n')]
     f = fault[3:]
     if f.startswith('late-'):
@@ -1442,6 +1468,14 @@ def execute(text, files):
             r = dassh.Reactor(inp, write_output=True)
             res['objs'] += 1
             res['planes'] = int(len(r.z))
+            # further time points: their models are set up before anything is swept (each time point's
+            # power file is read and checked when its Reactor is built)
+            for t in range(1, int(getattr(inp, 'timepoints', 1) or 1)):
+                res['phase'] = 'reactor'
+                _MON['dz_calls'] = 0
+                _MON['last_z'] = None
+                dassh.Reactor(inp, timestep=t, write_output=False)
+                res['objs'] += 1
             snap = [x.copy() for x in _temps(r)]
             res['phase'] = 'sweep'
             n = len(r.z) - 1
